@@ -39,6 +39,29 @@ WIDE = {"<start>": ["<a>"], "<a>": ["<d>" * 12], "<d>": ["0", "1", "7", "<e>"], 
 ASSGN = {"<start>": ["<stmt>"], "<stmt>": ["<assgn>", "<assgn> ; <stmt>"], "<assgn>": ["<var> := <rhs>"], "<rhs>": ["<var>", "<digit>"], "<var>": ["a", "b", "c"], "<digit>": ["0", "1", "2", "7"]}
 NUMS = {"<start>": ["<list>"], "<list>": ["<num>", "<num>,<list>"], "<num>": ["<dig>", "<dig><num>"], "<dig>": ["0", "1", "2", "9"]}
 
+# constraints in the style of the documentation on the assignment language: match expressions rooted in the start
+# symbol / a statement list, nested quantifiers ranging over an outer variable
+TEMPLATES = [
+    'forall <start> s="{<assgn> a} ; {<stmt> t}" in start: (not (= a "a := 1"))',
+    'exists <start> s="{<assgn> a} ; {<stmt> t}" in start: (= (str.len a) 6)',
+    'forall <start> s="{<var> v} := {<rhs> r}" in start: (not (= v r))',
+    'exists <stmt> s="{<assgn> a} ; <stmt>" in start: (str.prefixof "a" a)',
+    'forall <stmt> s="{<var> l} := <rhs> ; {<stmt> t}" in start: exists <var> w in t: (= w l)',
+    'forall <assgn> a in start: exists <var> v in a: (= v "a")',
+    'exists <assgn> a in start: forall <var> v in a: (= v "b")',
+    'forall <assgn> a in start: exists <rhs> r in a: exists <digit> d in r: (= d "7")',
+    'forall <assgn> a="{<var> l} := {<rhs> r}" in start: exists <assgn> b="{<var> l2} := <rhs>" in start: (before(b, a) and (= l2 r))',
+    'exists <assgn> a in start: (str.contains a "7")',
+    'forall <stmt> s in start: direct_child(s, start)',
+    'forall <stmt> s in start: forall <stmt> s2 in start: same_position(s, s2)',
+    'exists <stmt> s in start: exists <stmt> s2 in start: (not same_position(s, s2))',
+    'exists <stmt> s in start: (not direct_child(s, start))',
+    'forall <stmt> s in start: exists <assgn> a in s: direct_child(a, s)',
+    'forall <assgn> a in start: (str.prefixof "a" a)',
+    'exists <stmt> s in start: (str.suffixof "2" s)',
+    'forall <rhs> r in start: (>= (str.indexof r "a" 0) 0)',
+]
+
 UNSTABLE = ("nth(", "consecutive(", "level(", "count(")
 
 
@@ -88,6 +111,10 @@ def check_case(ctx: Ctx, g, gname: str, text: str, open_t: T.PT, completions: Li
     except Exception as e:  # noqa
         ctx.count("generator", "unparsable:" + type(e).__name__)
         return
+    if ctx.rng.random() < 0.4:
+        # the same node identities are evaluated on a closed completion first (any state kept between calls must not leak)
+        real_verdict(f, T.to_isla(completions[0]), g)
+        ctx.count("order", "completion-evaluated-first")
     v = real_verdict(f, T.to_isla(open_t), g)
     ctx.count("real_on_open_tree", "raises" if isinstance(v, tuple) else str(v))
     bound = max(T.size(t) for t in completions) + 16
@@ -172,6 +199,8 @@ def run(ctx: Ctx):
         completions = [x for x in completions if T.size(x) <= 90]
         fg = FormulaGen(rng, g, [full] + completions[1:2], allow_int=(i % 5 == 0))
         text = fg.constraint(depth=rng.randint(1, 3))
+        if gname == "assgn" and rng.random() < 0.5:
+            text = rng.choice(TEMPLATES)
         ctx.count("grammar", gname)
         check_case(ctx, g, gname, text, open_t, completions, "generated")
     ctx.obligation("no definite verdict of evaluate() on an open tree was contradicted by the specification's verdict on a completion (explored cases)", not ctx.violations)
